@@ -9,6 +9,29 @@ import (
 	"time"
 )
 
+func globMatch(pat, s string) bool {
+	if !strings.Contains(pat, "*") {
+		return false
+	}
+	parts := strings.Split(pat, "*")
+	if !strings.HasPrefix(s, parts[0]) {
+		return false
+	}
+	s = s[len(parts[0]):]
+	for i := 1; i < len(parts); i++ {
+		p := parts[i]
+		if i == len(parts)-1 {
+			return strings.HasSuffix(s, p)
+		}
+		j := strings.Index(s, p)
+		if j < 0 {
+			return false
+		}
+		s = s[j+len(p):]
+	}
+	return true
+}
+
 func main() {
 	if len(os.Args) < 2 {
 		fmt.Fprintln(os.Stderr, "usage: govc <verify|check|replay|selftest> ...")
@@ -50,7 +73,7 @@ func cmdVerify(args []string) {
 	var keys []string
 	for _, pat := range fs.Args() {
 		for k := range eng.fnByKey {
-			if k == pat || (strings.HasSuffix(pat, "*") && strings.HasPrefix(k, strings.TrimSuffix(pat, "*"))) {
+			if k == pat || globMatch(pat, k) {
 				keys = append(keys, k)
 			}
 		}
